@@ -120,6 +120,19 @@ pub fn run(ctx: &Ctx) -> Value {
                     "hour" => t.with_hour(v), "minute" => t.with_minute(v), "second" => t.with_second(v), _ => t.with_nanosecond(v) })})));
             }
         }
+        // field replacement through a zone-aware value whose offset has a seconds part: it acts on the WALL clock's time of day
+        if t.nanosecond() >= 1_000_000_000 || n_arith % 5 == 0 {
+            use chrono::TimeZone;
+            for off in [15, -13_236, 3_599, -1] {
+                let fo = chrono::FixedOffset::east_opt(off).unwrap();
+                let z = fo.from_utc_datetime(&chrono::NaiveDate::from_ymd_opt(2015, 6, 30).unwrap().and_time(t));
+                let wall = match crate::guard(|| z.naive_local().time()) { Ok(w) => w, Err(_) => continue };
+                for (f, v) in [("second", 0u32), ("second", 30), ("second", 59), ("minute", 7), ("hour", 3), ("nanosecond", 0), ("nanosecond", 1_700_000_000)] {
+                    tw.emit(ev("t.with", json!({"f": f, "t": tod(wall), "v": big(v as i128), "route": "DateTime<FixedOffset>", "off": off}), || json!({"r": opt(match f {
+                        "hour" => z.with_hour(v), "minute" => z.with_minute(v), "second" => z.with_second(v), _ => z.with_nanosecond(v) }, |q| tod(q.naive_local().time()))})));
+                }
+            }
+        }
         for d in dur_lattice_for(t, &mut rng, ctx.t(2, 12)) {
             let td = match mk_dur(d) { Some(x) => x, None => continue };
             tw.emit(ev("t.add", json!({"t": tod(t), "d": big(d)}), || { let (r, c) = t.overflowing_add_signed(td); json!({"r": tod(r), "carry": big(c as i128)}) }));
